@@ -861,6 +861,20 @@ func (a *activation) instrs(b *ssa.BasicBlock, idx int, fr *frame, h *Heap, p pa
 			return
 		}
 		in := b.Instrs[i]
+		if dbg := os.Getenv("EXEC_TRACEFN"); dbg != "" && fr.fn.Name() == dbg {
+			if i > idx {
+				if pv, ok := b.Instrs[i-1].(ssa.Value); ok {
+					v := fr.vals[pv]
+					fmt.Fprintf(os.Stderr, "    => %s\n", v.String())
+					if v.k == 'G' && v.agg != nil {
+						for fi, fv := range v.agg.fields {
+							fmt.Fprintf(os.Stderr, "       .%d = %s\n", fi, fv.String())
+						}
+					}
+				}
+			}
+			fmt.Fprintf(os.Stderr, "TRACE %s: %s\n", fr.fn.Name(), in.String())
+		}
 		switch in := in.(type) {
 		case *ssa.If:
 			cv := x.val(fr, in.Cond)
@@ -1108,7 +1122,8 @@ func (x *Exec) simple(in ssa.Instruction, fr *frame, h *Heap) bool {
 		}
 		switch {
 		case lv.nk && lv.n == 0:
-			o.exact = true
+			// an empty list (to be appended to): concrete, with no cells yet
+			o.kind = 'l'
 		case lv.nk && lv.n >= 1 && lv.n <= maxConcreteList:
 			// a small slice of known length: one cell per element
 			o.kind = 'l'
@@ -1256,6 +1271,13 @@ func (x *Exec) store(addr, val AV, h *Heap, in ssa.Instruction) {
 				na.fields[addr.n] = val
 				e.agg = na
 				o.elems[addr.idx] = e
+				if os.Getenv("EXEC_TRACEFN") != "" {
+					extra := ""
+					if val.k == 'G' && val.agg != nil && len(val.agg.fields) == 4 {
+						extra = " .3=" + val.agg.fields[3].String()
+					}
+					fmt.Fprintf(os.Stderr, "ELEMFIELD store obj %d elem %d field %d := %s%s\n", addr.obj, addr.idx, addr.n, val.String(), extra)
+				}
 			}
 		}
 		return
